@@ -51,7 +51,7 @@ def num_to_name(prog, rep, rule, trait, self_s, arg_s, name, expected, wildcard,
             got.setdefault(v, []).append(p)
     for nm, num in expected.items():
         names = got.get(num, [])
-        ok = len(names) == 1 and names[0][-1] == nm
+        ok = len(names) == 1 and len(names[0]) > 0 and names[0][-1] == nm
         rep.ob(rule, "%s|%s" % (self_s, nm), ok,
                "%s: number %d should map to %s (registry) but maps to %s" % (b["path"], num, nm, names or "the wildcard arm"),
                {"file": b["span"]["f"], "line": b["span"]["l"], "fn": b["path"]},
